@@ -85,6 +85,7 @@ func c11Run(w *W) {
 	var dialers []mangos.Dialer
 	var listeners []mangos.Listener
 	openCtx := 0
+	extraPeers := 0
 	s.SetPipeEventHook(func(ev mangos.PipeEvent, p mangos.Pipe) {
 		if ev == mangos.PipeEventAttached {
 			mu.Lock()
@@ -153,7 +154,7 @@ func c11Run(w *W) {
 	for t := range progs {
 		n := 5 + w.Choose(simrt.SProg, 26)
 		for i := 0; i < n; i++ {
-			k := []string{"Send", "Send", "Recv", "Recv", "SetOption", "SetOption", "GetOption", "Context", "Dial", "Listen", "PipeClose", "Sleep", "EndpointOption", "EndpointOption", "PipeOption"}[w.Choose(simrt.SProg, 15)]
+			k := []string{"Send", "Send", "Recv", "Recv", "SetOption", "SetOption", "GetOption", "Context", "Dial", "Listen", "PipeClose", "Sleep", "EndpointOption", "EndpointOption", "PipeOption", "PeerDial"}[w.Choose(simrt.SProg, 16)]
 			progs[t] = append(progs[t], c11Op{k, w.Choose(simrt.SProg, 1<<16), w.Choose(simrt.SProg, 1<<16)})
 		}
 		if t == closer {
@@ -292,6 +293,27 @@ func c11Run(w *W) {
 							check("GetOption", err)
 						}
 						_ = p.Address()
+					}
+				case "PeerDial":
+					// another socket dials this one synchronously, possibly while
+					// this one is being closed or its accept loop is busy: the
+					// Dial must come back (attached, refused or closed)
+					mu.Lock()
+					ok := extraPeers < 4
+					if ok {
+						extraPeers++
+					}
+					mu.Unlock()
+					if ok {
+						ps := w.Sock(peerKind[kind])
+						_ = ps.SetOption(mangos.OptionRecvDeadline, 2*time.Millisecond)
+						_ = ps.SetOption(mangos.OptionSendDeadline, 2*time.Millisecond)
+						_ = ps.DialOptions(laddr, map[string]interface{}{mangos.OptionDialAsynch: false})
+						if op.a%2 == 0 {
+							_ = ps.Send([]byte("hello"))
+						}
+						w.Sleep(time.Duration(op.b%1000) * time.Microsecond)
+						_ = ps.Close()
 					}
 				case "Sleep":
 					w.Sleep(time.Duration(op.a%2000) * time.Microsecond)
